@@ -345,7 +345,25 @@ pub fn run_c08(out: &mut Out) {
                     if seeded {
                         s = s.set_seed(seed);
                     }
+                    // the draws a step consumes (hook): momentum rows and acceptance uniforms must differ between chains
+                    mini_mcmc::verif_hooks::tl_enable();
                     s.step();
+                    let ev = mini_mcmc::verif_hooks::tl_drain();
+                    for e in &ev {
+                        if let Some(rest) = e.strip_prefix("hmc uniform ") {
+                            let us: Vec<&str> = rest.split(',').collect();
+                            if let Some((i, j)) = all_distinct(&us) {
+                                out.fail(&id, &format!("C08:hmc-uniform-shared:{tag}"), "two HMC chains received the same acceptance draw in one step", n as u64, format!("rows {i},{j} seed={seed}"));
+                            }
+                        }
+                        if let Some(rest) = e.strip_prefix("hmc momentum ") {
+                            let ms: Vec<&str> = rest.split(',').collect();
+                            let rows: Vec<&[&str]> = ms.chunks(2).collect();
+                            if let Some((i, j)) = all_distinct(&rows) {
+                                out.fail(&id, &format!("C08:hmc-momentum-shared:{tag}"), "two HMC chains received the same momentum in one step", n as u64, format!("rows {i},{j} seed={seed}"));
+                            }
+                        }
+                    }
                     s.step();
                     let v: Vec<f32> = s.positions.to_data().to_vec().unwrap();
                     let rows: Vec<Vec<u32>> = (0..n).map(|ch| v[ch * 2..ch * 2 + 2].iter().map(|x| x.to_bits()).collect()).collect();
